@@ -357,7 +357,7 @@ class Scn:
     def desc(self):
         return {"model": self.mname, "params": self.mparams, "flux": self.flux, "recon": self.rname, "mesh": self.mdesc,
                 "bcL": self.bcL, "bcR": self.bcR, "prim": self.prim, "datakind": self.dkind,
-                "objects_used_before_on_another_mesh": getattr(self, "warm", False)}
+                "objects_used_before_on_another_mesh": getattr(self, "warm", False), "history_after_build": getattr(self, "history", "fresh")}
 
     def cls(self):
         return "%s/%s" % (self.mname, self.flux)
@@ -488,7 +488,7 @@ def open_bc(mname, model, rng, prim, side):
     return {"type": t}
 
 
-def _warm_up(rng, s, bc, mach_max, ratio):
+def _warm_up(rng, s, bc, mach_max, ratio, use=True):
     """use the SAME model and reconstruction objects on another mesh (same number of cells, other geometry, other data and boundary
     parameters) before the real problem is built: state remembered on these objects from a previous use must not matter"""
     mesh2, _ = mesh1d(rng, ncell=s.mesh.ncell)
@@ -501,6 +501,8 @@ def _warm_up(rng, s, bc, mach_max, ratio):
         b2L, b2R = open_bc(s.mname, s.model, rng, prim2, "L"), open_bc(s.mname, s.model, rng, prim2, "R")
     d2 = md.fvm(s.model, mesh2, s.num, numflux=s.flux, bcL=b2L, bcR=b2R)
     f2 = fdata_prim(s.model, mesh2, prim2)
+    if not use:
+        return
     try:
         d2.rhs(f2)
         d2.calc_timestep(f2, 0.5)
@@ -545,6 +547,19 @@ def scenario1d(rng, models=MODELS1D, bc=None, recons=ALL_RECONS, meshkinds=MESH_
         s.field = fdata_prim(s.model, s.mesh, s.prim)
     if rng.random() < 0.08:
         exotic_layout(s.field, 2)          # strided views instead of contiguous arrays (same values)
+    s.history = "fresh"
+    if warm is None and rng.random() < 0.12:
+        # call history AFTER the problem was built: it is evaluated once, then the SAME model and scheme objects are handed to another
+        # discretisation on another mesh (built only, or built and used) -- what the first discretisation computes afterwards must
+        # still be about ITS mesh (memoised mesh-dependent terms of the model: nozzle sections, cached geometry)
+        s.history = "used once, then another discretisation of the same model %s" % ("built and used" if rng.random() < 0.5 else "built")
+        from . import probes as _probes
+        try:
+            with _probes.quiet(), np.errstate(all="ignore"):
+                s.disc.rhs(s.field)
+        except (np.linalg.LinAlgError, FloatingPointError):
+            pass
+        _warm_up(rng, s, bc, mach_max, ratio, use=s.history.endswith("used"))
     return s
 
 
